@@ -280,6 +280,10 @@ def main():
     except Unsupported as e:
         out["error"] = "unsupported MIR construct: " + str(e)
     out["wall_s"] = round(time.time() - t0, 1)
+    import os
+    from . import effects as _E
+    if os.environ.get("MIRSMT_DIFF"):
+        out["second_solver"] = dict(_E.DIFF)
     json.dump(out, open(sys.argv[3], "w"), indent=1, default=str)
     print(json.dumps(out, indent=1, default=str)[:6000])
 
